@@ -184,7 +184,22 @@ pub mod boundary {
                 return true;
             }
 
-            let this = self.inner.0.lock().unwrap();
+            // Both lists stay locked during the comparison. The two mutexes
+            // are taken in a fixed global order (by address), as in
+            // `ErasedList::eq`: if `a == b` locked `a` first and `b == a` on
+            // another thread locked `b` first, each would hold one mutex and
+            // wait forever for the other.
+            let (this, other) = if Arc::as_ptr(&self.inner.0)
+                < Arc::as_ptr(&other.inner.0)
+            {
+                let this = self.inner.0.lock().unwrap();
+                let other = other.inner.0.lock().unwrap();
+                (this, other)
+            } else {
+                let other = other.inner.0.lock().unwrap();
+                let this = self.inner.0.lock().unwrap();
+                (this, other)
+            };
 
             // SAFETY: The rawlist represents a slice of T::Transformed so
             // we can safely construct a slice from it's parts as long as we
@@ -195,8 +210,6 @@ pub mod boundary {
                     this.len,
                 )
             };
-
-            let other = other.inner.0.lock().unwrap();
 
             // SAFETY: The rawlist represents a slice of T::Transformed so
             // we can safely construct a slice from it's parts as long as we
